@@ -190,6 +190,14 @@ def run(ctx):
            {'writers': sorted(w), 'unexpected': extra}, node=(w[extra[0]] if extra else None), construct='.channelized_stds writers')
     agree_ref(ctx, ctx.func(PFB + 'estimate_channelized_stds'), REF_ESTIMATE, 'channelised unit-noise deviations: std of re/im of '
               'the PFB output of unit Gaussian noise, cache untouched', what=('return', 'attrstores', 'calls'), expand=False, max_depth=0)
+    # ... and "cache untouched" holds only if the channelisation it requests with cache=False writes no persistent state of the
+    # filterbank: the estimate runs lazily BETWEEN two sub-blocks of a recording, whose continuity lives in self.cache
+    chz = ctx.func(PFB + 'channelize')
+    rz, Iz = ctx.run(chz, args={'cache': FALSE}, expand=False)
+    wz = [e for e in Iz.events if e.kind in ('store', 'delete') and e.data.get('target') == 'attr'
+          and e.data['base'].key == sym('self').key and not (e.pc and any(c.key == FALSE.key for c in e.pc))]
+    ctx.ob('EFFECTS', 'channelize(x, cache=False) -- the call the deviation estimate makes -- stores no attribute of the filterbank', chz,
+           not wz, {'stores': [e.text() for e in wz]}, node=(wz[0].node if wz else chz.node), construct='channelize(cache=False) effects')
     # RESTORE of the temporary target_mean = 0
     r, I = ctx.run(cdb, heap={'num_bits': lift(8), 'input_file_stem': lift('stem')}, args={'digitize': TRUE, 'requantize': TRUE},
                    no_inline=(B + '._read_next_block',), expand=False, max_depth=0)
@@ -198,16 +206,21 @@ def run(ctx):
     q = [e for e in I.events if e.kind == 'call' and e.data.get('name') == '.quantize' and any(k == 'custom_stds' for k, _ in e.data['kwargs'])]
     ctx.require(q, 'collect_data_block: the synthetic requantisation with custom deviations was not found')
     for comp in ('quantizer_r', 'quantizer_i'):
-        es = [e for e in tm if comp in ast.unparse(e.data['base_node'])]
+        es = [e for e in tm if comp in pretty(e.data['base'])]
         zero = [e for e in es if e.data['value'].const() == 0 and e.seq < q[0].seq]
         back = [e for e in es if e.seq > q[0].seq]
-        ok = len(zero) == 1 and len(back) == 1 and back[0].pc == zero[0].pc or (
-            len(zero) == 1 and len(back) == 1 and [c.key for c in back[0].pc] == [c.key for c in zero[0].pc])
+        ok = len(zero) == 1 and len(back) == 1 and [c.key for c in back[0].pc] == [c.key for c in zero[0].pc]
         if ok:
-            saved = [e for e in I.events if e.kind == 'store' and e.data.get('target') == 'name' and e.seq < zero[0].seq
-                     and e.data['value'].key == back[0].data['value'].key and 'target_mean' in pretty(e.data['value'])
-                     and comp in pretty(e.data['value'])]
-            ok = bool(saved)
+            # the value written back is the attribute's value from before the zeroing (terms denote values, not
+            # locations: a read after the zeroing would be the constant 0), whatever local / list carried it
+            entry = T.mk_attr(zero[0].data['base'], 'target_mean')
+            bv = back[0].data['value']
+            ba = bv.single_atom()
+            ok = back[0].data['base'].key == zero[0].data['base'].key and (bv.key == entry.key or (
+                ba is not None and ba.kind == 'loopvar' and ba.args[0] == zero[0].data['base'].key + '.target_mean'))
+        import os
+        if os.environ.get('VSTATIC_DEBUG'):
+            for e in es: print('   DBG', e.text(), '| base', pretty(e.data['base'])[:100], '| val', pretty(e.data['value'])[:120], '| old', pretty(e.data['old'])[:100] if e.data.get('old') is not None else None, '| pc', [pretty(c)[:50] for c in e.pc])
         ctx.ob('RESTORE', f'{comp}.target_mean is set to 0 only around the synthetic requantisation and re-assigned from the saved value '
                'on the same path', cdb, ok, {'stores': [e.text() for e in es]}, node=(es[0].node if es else cdb.node),
                construct=f'{comp}.target_mean save/restore')
